@@ -629,7 +629,9 @@ class Crate:
         return out
 
     def callgraph(self):
-        return {b.name: self.local_callees(b) for b in self.real_bodies()}
+        if getattr(self, "_cg", None) is None:
+            self._cg = {b.name: self.local_callees(b) for b in self.real_bodies()}
+        return self._cg
 
     def reachable_from(self, roots):
         cg = self.callgraph()
@@ -645,6 +647,12 @@ class Crate:
 
     def sccs(self):
         """Tarjan; returns list of SCCs (as sorted lists) that contain a cycle"""
+        if getattr(self, "_sccs", None) is not None:
+            return self._sccs
+        self._sccs = self._compute_sccs()
+        return self._sccs
+
+    def _compute_sccs(self):
         cg = self.callgraph()
         index = {}
         low = {}
@@ -795,7 +803,10 @@ def term_of(body, x, depth=0, stop_named=True):
             if "closure" in c["ty"]:
                 return ("fn", c["ty"]["closure"])
             if "promoted" in c:
-                pb = body.crate.promoted(body, c["promoted"]) if body.kind != "promoted" else None
+                if "promoted_owner" in c:
+                    pb = body.crate.bodies.get("%s::promoted[%d]" % (c["promoted_owner"], c["promoted"]))
+                else:
+                    pb = body.crate.promoted(body, c["promoted"]) if body.kind != "promoted" else None
                 if pb is not None:
                     # promoted bodies compute a reference to a constant in _0
                     return term_of(pb, {"l": 0, "p": []}, depth + 1)
@@ -1051,3 +1062,122 @@ def walk_paths(body, start_bb, visit, state=None, stop=None, limit=4000):
         for s in succ:
             stack.append((s, st))
     return outcomes
+
+
+# --------------------------------------------------------------------------
+# inlining of crate-local helper calls (facts-level): lets the rule packs look through helper functions
+# that a refactoring extracted.  Only direct calls to non-recursive bodies of the same crate are inlined.
+
+import copy
+
+
+def _shift_place(p, off):
+    q = {"l": p["l"] + off, "p": [], "ty": p.get("ty")}
+    for e in p["p"]:
+        if isinstance(e, dict) and "idx" in e:
+            e = dict(e, idx=e["idx"] + off)
+        q["p"].append(e)
+    return q
+
+
+def _shift_operand(o, off, owner):
+    if "copy" in o:
+        return {"copy": _shift_place(o["copy"], off)}
+    if "move" in o:
+        return {"move": _shift_place(o["move"], off)}
+    if "const" in o and "promoted" in o["const"] and "promoted_owner" not in o["const"]:
+        c = dict(o["const"], promoted_owner=owner)
+        return {"const": c}
+    return o
+
+
+def _shift_rv(rv, off, owner):
+    rv = dict(rv)
+    for k in ("op", "l", "r", "o"):
+        if k in rv and isinstance(rv[k], dict):
+            rv[k] = _shift_operand(rv[k], off, owner)
+    if "place" in rv:
+        rv["place"] = _shift_place(rv["place"], off)
+    if "ops" in rv:
+        rv["ops"] = [_shift_operand(o, off, owner) for o in rv["ops"]]
+    return rv
+
+
+def inline_calls(crate, body, pred, depth=3, _stack=()):
+    """new Body with every direct call to a crate-local body satisfying pred(callee Body, call terminator) replaced
+    by the callee's blocks (recursively up to `depth`); recursive callees are never inlined"""
+    if depth <= 0:
+        return body
+    j = copy.deepcopy(body.j)
+    blocks = j["blocks"]
+    locals_ = j["locals"]
+    changed = False
+    rec = {n for comp in crate.sccs() for n in comp}
+    nb0 = len(blocks)
+    for bi in range(nb0):
+        t = blocks[bi]["term"]
+        if t["k"] != "call" or blocks[bi]["cleanup"]:
+            continue
+        c = t["callee"]
+        callee = crate.bodies.get(c.get("resolved")) or crate.bodies.get(c.get("path"))
+        if callee is None or callee.name in rec or callee.name == body.name or callee.name in _stack or callee.kind == "promoted":
+            continue
+        if t.get("t") is None or not pred(callee, t):
+            continue
+        callee = inline_calls(crate, callee, pred, depth - 1, _stack + (body.name,))
+        cj = callee.j
+        loff = len(locals_)
+        boff = len(blocks)
+        locals_.extend(copy.deepcopy(cj["locals"]))
+        owner = cj.get("inlined_owner", callee.name)
+        # argument passing
+        for i, a in enumerate(t["args"]):
+            pl = {"l": loff + 1 + i, "p": [], "ty": cj["locals"][1 + i]["ty"] if 1 + i < len(cj["locals"]) else {}}
+            blocks[bi]["stmts"].append({"k": "assign", "place": pl, "rv": {"k": "use", "op": a}, "span": t.get("span", {})})
+        ret_target = t["t"]
+        dest = t["dest"]
+        for cb in cj["blocks"]:
+            nbk = {"cleanup": cb["cleanup"], "stmts": [], "term": None}
+            for st in cb["stmts"]:
+                st2 = dict(st)
+                if "place" in st2:
+                    st2["place"] = _shift_place(st2["place"], loff)
+                if "rv" in st2:
+                    st2["rv"] = _shift_rv(st2["rv"], loff, owner)
+                nbk["stmts"].append(st2)
+            ct = dict(cb["term"])
+            k = ct["k"]
+            if k == "return":
+                nbk["stmts"].append({"k": "assign", "place": dest, "rv": {"k": "use", "op": {"move": {"l": loff, "p": [], "ty": cj["locals"][0]["ty"]}}},
+                                     "span": t.get("span", {})})
+                ct = {"k": "goto", "t": ret_target}
+            else:
+                if k == "goto":
+                    ct["t"] = ct["t"] + boff
+                elif k == "switch":
+                    ct["op"] = _shift_operand(ct["op"], loff, owner)
+                    ct["targets"] = [[v, b2 + boff] for v, b2 in ct["targets"]]
+                    ct["otherwise"] = ct["otherwise"] + boff
+                elif k in ("drop", "assert"):
+                    ct["t"] = ct["t"] + boff
+                    if "place" in ct:
+                        ct["place"] = _shift_place(ct["place"], loff)
+                    if "cond" in ct:
+                        ct["cond"] = _shift_operand(ct["cond"], loff, owner)
+                elif k == "call":
+                    ct["args"] = [_shift_operand(a, loff, owner) for a in ct["args"]]
+                    ct["dest"] = _shift_place(ct["dest"], loff)
+                    if ct.get("t") is not None:
+                        ct["t"] = ct["t"] + boff
+                    if "indirect" in ct["callee"]:
+                        ct["callee"] = dict(ct["callee"], indirect=_shift_operand(ct["callee"]["indirect"], loff, owner))
+            nbk["term"] = ct
+            blocks.append(nbk)
+        blocks[bi]["term"] = {"k": "goto", "t": boff}
+        changed = True
+    if not changed:
+        return body
+    j["inlined_owner"] = body.j.get("inlined_owner", body.name)
+    nb = Body(j, body.crate)
+    nb.inlined = True
+    return nb
